@@ -40,6 +40,28 @@ def strategy(tier):
     return trav.cases()
 
 
+def enumerate_cases(tier, shard=0, nshards=1):
+    """
+    Small diamond-like graphs inside LARGE universes (padded with 1000 isolated members, i.e. more members than the
+    interpreter's default recursion limit).  Enumerated rather than drawn because Hypothesis raises the recursion
+    limit while it runs a test, which would hide size thresholds tied to it.
+    """
+    import itertools
+
+    from eglib.driver import sharded
+
+    pairs = [(0, 1), (0, 2), (1, 2), (1, 3), (2, 3), (2, 1), (3, 0)]
+    shapes = [list(c) for r in (3, 4) for c in itertools.combinations(pairs, r)]
+    cfgs = [(shape, cls, d) for shape in shapes for cls in (0, 1) for d in (0, 1)]
+
+    def gen():
+        for shape, cls, d in sharded(cfgs, shard, nshards):
+            yield {"g": {"nv": 4, "vcls": None, "edges": [[cls, a, b] for a, b in shape], "reassign": []}, "uni": [0, 1, 2, 3],
+                   "start": 0, "d": d, "u": 1, "via": None, "res": None, "cache": False, "pad": 1000, "swap": None, "take": 0}
+
+    return gen(), f"{len(cfgs)} diamond-like graphs (3-4 of 7 candidate links over 4 vertices, directed / undirected, FORWARD / ANY) in universes padded to 1004 members"
+
+
 def _distances(N, s):
     dist = {s: 0}
     frontier = [s]
